@@ -99,6 +99,30 @@ def make_eq(pairs):
     return h
 
 
+def leafeq_check(x, y, wrap):
+    """Two leaves (or one-child lists around them): equal iff same text;
+    equal nodes hash equal."""
+    from ddsmt.nodes import Node
+    n1, n2 = Node(x), Node(y)
+    if wrap:
+        n1, n2 = Node(Node('f'), n1), Node(Node('f'), n2)
+    got = (n1 == n2)
+    if bool(got) != bool(x == y):
+        return (f'leaves {x!r} and {y!r}: == gives {got!r}')
+    if x == y and n1.__hash__() != n2.__hash__():
+        return f'equal leaves {x!r} hash differently'
+    return None
+
+
+def make_leafeq(maxlen):
+    def h(x: str, y: str, wrap: bool):
+        assume(1 <= len(x) <= maxlen and 1 <= len(y) <= maxlen)
+        r = leafeq_check(x, y, wrap)
+        if r:
+            raise Violation(r)
+    return h
+
+
 def _native_family(a, m):
     """The hash-family member of the counterexample, as plain Python: part of
     the scenario (a Python str/tuple hash *may* collide), not a shim."""
@@ -528,6 +552,10 @@ def partitions(tier):
         parts.append({'name': f'eq_{k}', 'fn': make_eq(ch),
                       'setup': _setup_h, 'budget_s': bud,
                       'bounds': {'shape_pairs': len(ch)}})
+    parts.append({'name': 'leafeq', 'fn': make_leafeq(3 if tier == 'quick'
+                                                       else 4),
+                  'setup': _setup_s, 'budget_s': bud,
+                  'bounds': {'leaf_text_len': 3 if tier == 'quick' else 4}})
     for k, ch in enumerate(_chunks(_copy_shapes(tier), 8)):
         parts.append({'name': f'copy_{k}', 'fn': make_copy(ch, 'copy', 1),
                       'setup': _setup_s, 'budget_s': bud,
@@ -562,6 +590,11 @@ def replay(part, cex):
             break
     tier = os.environ.get('VERIF_TIER_REPLAY', 'quick')
     kind, _, k = part.partition('_')
+    if part == 'leafeq':
+        try:
+            return leafeq_check(cex['x'], cex['y'], cex['wrap'])
+        except Exception as e:
+            return f'{type(e).__name__}: {e}'
     try:
         if kind == 'eq':
             ch = _chunks(_eq_pairs(tier), 48 if tier == 'quick' else 160)
